@@ -28,20 +28,27 @@ theorem under {k p : Prop} (_tie : k) (h : p) : p := h
 /-- `Do`: clamp low, clamp high, sequential fast path (`for …; return`), counter, wait group,
 `wg.Add`, spawn loop of `go` statements, `wg.Wait()`, `return`. -/
 theorem pskelDo_tie : pskelDo =
-    ["if{assign}", "if{assign}", "if{for{..};return}", "define", "decl", "call", "for{go{..}}", "call", "return"] := by
+    ["if{assign}", "if{assign}", "if{for{..};return}", "define", "decl", "mcall", "for{go{..}}", "mcall",
+     "return"] := by
   decide
 
 /-- sequential path of `Do`: `for … { f(i) }; return` -/
-theorem pskelDoSeq_tie : pskelDoSeq = ["for{call}", "return"] := by decide
+theorem pskelDoSeq_tie : pskelDoSeq =
+    ["for{call}", "return"] := by decide
 
 /-- worker of `Do`: `defer wg.Done()`, then forever: fetch, `if … { return }`, `f(i)` -/
-theorem pskelDoWorker_tie : pskelDoWorker = ["defer", "forever{define;if{return};call}"] := by decide
+theorem pskelDoWorker_tie : pskelDoWorker =
+    ["defer", "forever{define;if{return};call}"] := by decide
 
 /-- the three bodies of `parallel.Do` the LTS hard-wires -/
 theorem pskelDo_ties :
-    pskelDo = ["if{assign}", "if{assign}", "if{for{..};return}", "define", "decl", "call", "for{go{..}}", "call", "return"]
-    ∧ pskelDoSeq = ["for{call}", "return"]
-    ∧ pskelDoWorker = ["defer", "forever{define;if{return};call}"] :=
+    pskelDo =
+    ["if{assign}", "if{assign}", "if{for{..};return}", "define", "decl", "mcall", "for{go{..}}", "mcall",
+     "return"]
+    ∧ pskelDoSeq =
+    ["for{call}", "return"]
+    ∧ pskelDoWorker =
+    ["defer", "forever{define;if{return};call}"] :=
   ⟨pskelDo_tie, pskelDoSeq_tie, pskelDoWorker_tie⟩
 
 /-! ### parallel.DoContext -/
@@ -49,26 +56,31 @@ theorem pskelDo_ties :
 /-- `DoContext`: clamp low, clamp high, sequential fast path, counter, errgroup, spawn loop of
 `eg.Go(func …)`, `return eg.Wait()`. -/
 theorem pskelDoContext_tie : pskelDoContext =
-    ["if{assign}", "if{assign}", "if{for{..};return}", "define", "define", "for{call{..}}", "return"] := by
+    ["if{assign}", "if{assign}", "if{for{..};return}", "define", "define", "for{mcall{..}}", "return"] := by
   decide
 
 /-- sequential path of `DoContext`: `for … { err := f(ctx, i); if err != nil { return err } }; return nil` -/
-theorem pskelDoContextSeq_tie : pskelDoContextSeq = ["for{define;if{return}}", "return"] := by decide
+theorem pskelDoContextSeq_tie : pskelDoContextSeq =
+    ["for{define;if{return}}", "return"] := by decide
 
 /-- worker of `DoContext`: forever: fetch, done?, cancelled?, call, failed? -/
 theorem pskelDoContextWorker_tie : pskelDoContextWorker =
     ["forever{define;if{return};if{return};define;if{return}}"] := by decide
 
 theorem pskelDoContext_ties :
-    pskelDoContext = ["if{assign}", "if{assign}", "if{for{..};return}", "define", "define", "for{call{..}}", "return"]
-    ∧ pskelDoContextSeq = ["for{define;if{return}}", "return"]
-    ∧ pskelDoContextWorker = ["forever{define;if{return};if{return};define;if{return}}"] :=
+    pskelDoContext =
+    ["if{assign}", "if{assign}", "if{for{..};return}", "define", "define", "for{mcall{..}}", "return"]
+    ∧ pskelDoContextSeq =
+    ["for{define;if{return}}", "return"]
+    ∧ pskelDoContextWorker =
+    ["forever{define;if{return};if{return};define;if{return}}"] :=
   ⟨pskelDoContext_tie, pskelDoContextSeq_tie, pskelDoContextWorker_tie⟩
 
 /-! ### Map / MapContext -/
 
 /-- `Map`: allocate, `Do(…, func(i) { out[i] = f(in[i]) })`, `return out` -/
-theorem pskelMap_tie : pskelMap = ["define", "call{assign}", "return"] := by decide
+theorem pskelMap_tie : pskelMap =
+    ["define", "call{assign}", "return"] := by decide
 
 /-- `MapContext`: allocate, `err := DoContext(…, func … { var err error; out[i], err = …; return err })`,
 `if err != nil { return nil, err }`, `return out, nil` -/
@@ -86,22 +98,27 @@ theorem pskelMapIterator_tie : pskelMapIterator =
 /-- dispatcher of `MapIterator`: `i := 0`; forever: pull, `if !ok { break }`, Lock, `for full { Wait }`,
 `inFlight++`, Unlock, send, `i++`; `close(in)`. -/
 theorem pskelMapIteratorDispatcher_tie : pskelMapIteratorDispatcher =
-    ["define", "forever{define;if{break};call;for{call};assign;call;send;assign}", "call"] := by decide
+    ["define", "forever{define;if{break};mcall;for{mcall};assign;mcall;send;assign}", "call"] := by decide
 
 /-- worker of `MapIterator`: `for item := range in { u := f(…); ch <- … }`, then the last one closes `ch`. -/
-theorem pskelMapIteratorWorker_tie : pskelMapIteratorWorker = ["range{define;send}", "if{call}"] := by decide
+theorem pskelMapIteratorWorker_tie : pskelMapIteratorWorker =
+    ["range{define;send}", "if{call}"] := by decide
 
 /-- `mapIterator.Next`: forever: `if ready { pop; i++; Lock; inFlight--; if … { Signal }; Unlock; return }`,
 receive, `if !ok { var zero; return }`, push. -/
 theorem pskelMapIteratorNext_tie : pskelMapIteratorNext =
-    ["forever{if{define;assign;call;assign;if{call};call;return};define;if{decl;return};call}"] := by decide
+    ["forever{if{define;assign;mcall;assign;if{mcall};mcall;return};define;if{decl;return};mcall}"] := by decide
 
 theorem pskelMapIterator_ties :
-    pskelMapIterator = ["if{assign}", "if{assign}", "define", "define{return}", "assign", "go{define;forever{..};call}",
-      "define", "for{go{..}}", "return"]
-    ∧ pskelMapIteratorDispatcher = ["define", "forever{define;if{break};call;for{call};assign;call;send;assign}", "call"]
-    ∧ pskelMapIteratorWorker = ["range{define;send}", "if{call}"]
-    ∧ pskelMapIteratorNext = ["forever{if{define;assign;call;assign;if{call};call;return};define;if{decl;return};call}"] :=
+    pskelMapIterator =
+    ["if{assign}", "if{assign}", "define", "define{return}", "assign", "go{define;forever{..};call}",
+     "define", "for{go{..}}", "return"]
+    ∧ pskelMapIteratorDispatcher =
+    ["define", "forever{define;if{break};mcall;for{mcall};assign;mcall;send;assign}", "call"]
+    ∧ pskelMapIteratorWorker =
+    ["range{define;send}", "if{call}"]
+    ∧ pskelMapIteratorNext =
+    ["forever{if{define;assign;mcall;assign;if{mcall};mcall;return};define;if{decl;return};mcall}"] :=
   ⟨pskelMapIterator_tie, pskelMapIteratorDispatcher_tie, pskelMapIteratorWorker_tie, pskelMapIteratorNext_tie⟩
 
 /-! ### parallel.MapStream -/
@@ -110,7 +127,7 @@ theorem pskelMapIterator_ties :
 dispatcher `eg.Go(func …)`, `c`, `nDone`, the spawn loop of `eg.Go(func …)`, `return &mapStream{…}`. -/
 theorem pskelMapStream_tie : pskelMapStream =
     ["if{assign}", "if{assign}", "define", "define", "for{send}", "define", "define",
-     "call{defer;defer;define;forever{..};return}", "define", "define", "for{call{..}}", "return{return}"] := by
+     "mcall{defer;defer;define;forever{..};return}", "define", "define", "for{mcall{..}}", "return{return}"] := by
   decide
 
 /-- dispatcher of `MapStream`: `defer s.Close()`, `defer close(in)`, `i := 0`; forever: pull,
@@ -129,22 +146,29 @@ theorem pskelMapStreamWorker_tie : pskelMapStreamWorker =
 /-- `mapStream.Next`: `var zero`; forever: `if ready { pop; i++; release; return }`,
 `select { item, ok := <-s.c: if !ok { err := Wait(); if err != nil { return }; return }; push  |  ctx.Done: return }`. -/
 theorem pskelMapStreamNext_tie : pskelMapStreamNext =
-    ["decl", "forever{if{define;assign;send;return};select{recv{if{define;if{return};return};call};recv{return}}}"] := by
+    ["decl",
+     "forever{if{define;assign;send;return};select{recv{if{define;if{return};return};mcall};recv{return}}}"] := by
   decide
 
 /-- `mapStream.Close`: `s.cancel()`, `_ = s.eg.Wait()` and nothing else. -/
-theorem pskelMapStreamClose_tie : pskelMapStreamClose = ["call", "assign"] := by decide
+theorem pskelMapStreamClose_tie : pskelMapStreamClose =
+    ["mcall", "assign"] := by decide
 
 theorem pskelMapStream_ties :
-    pskelMapStream = ["if{assign}", "if{assign}", "define", "define", "for{send}", "define", "define",
-      "call{defer;defer;define;forever{..};return}", "define", "define", "for{call{..}}", "return{return}"]
-    ∧ pskelMapStreamDispatcher = ["defer", "defer", "define",
-      "forever{define;if{break}else{if{return}};select{recv{return};recv{}};select{recv{return};send{}};assign}",
-      "return"]
-    ∧ pskelMapStreamWorker = ["defer{if{call}}", "range{define;if{return};select{recv{return};send{}}}", "return"]
+    pskelMapStream =
+    ["if{assign}", "if{assign}", "define", "define", "for{send}", "define", "define",
+     "mcall{defer;defer;define;forever{..};return}", "define", "define", "for{mcall{..}}", "return{return}"]
+    ∧ pskelMapStreamDispatcher =
+    ["defer", "defer", "define",
+     "forever{define;if{break}else{if{return}};select{recv{return};recv{}};select{recv{return};send{}};assign}",
+     "return"]
+    ∧ pskelMapStreamWorker =
+    ["defer{if{call}}", "range{define;if{return};select{recv{return};send{}}}", "return"]
     ∧ pskelMapStreamNext =
-      ["decl", "forever{if{define;assign;send;return};select{recv{if{define;if{return};return};call};recv{return}}}"]
-    ∧ pskelMapStreamClose = ["call", "assign"] :=
+    ["decl",
+     "forever{if{define;assign;send;return};select{recv{if{define;if{return};return};mcall};recv{return}}}"]
+    ∧ pskelMapStreamClose =
+    ["mcall", "assign"] :=
   ⟨pskelMapStream_tie, pskelMapStreamDispatcher_tie, pskelMapStreamWorker_tie, pskelMapStreamNext_tie,
    pskelMapStreamClose_tie⟩
 
